@@ -528,7 +528,7 @@ theorem decRun_spec (t : Tick) (ht : TickOK t) (e : Env) (w : Store) (i : Nat) (
         · exact hc1
       generalize (if (decUpdate e k0 c1.status).2.2 = true then stopInv c1 else (c1, [])) = cc at h hc2'
       split at h
-      · simp only [pure, Except.pure, Except.ok.injEq, Prod.mk.injEq] at h
+      · simp only [hns, false_or, pure, Except.pure, Except.ok.injEq, Prod.mk.injEq] at h
         obtain ⟨rfl, rfl, _⟩ := h
         refine ⟨?_, by simpa [status] using hns, by simp [id], hw2⟩
         by_cases hr : cc.1.status = .running
